@@ -15,16 +15,19 @@ def gen_case(rng, tier):
         # a bare Distribution / Vmap-of-Distribution used directly through the GFI (sim/bare.py)
         return bare.gen_case(rng, tier, "update")
     c = gfi.gen_model_case(rng, tier, shared_cond=None)
+    nested = None
     if rng.random() < 0.15:
         # a Cond whose branches share addresses and contain a nested sub-call: constraints that name only part
         # of the nested sub-map while the new arguments switch the branch
         g = progs.Gen(rng, depth=1, max_blocks=2, kinds=["site", "call"], shared_cond=True)
         ma = g.model(1, "", 2)
-        while not any(b["k"] == "call" for b in ma["blocks"]):
+        while not any(b["k"] == "call" and len(ref.model_paths(b["m"])) >= 2 for b in ma["blocks"]):
             ma = g.model(1, "", 2)
         blocks = ([{"k": "site", "a": "s", "d": rng.choice(progs.CONT_REAL_LINE), "kw": False}] if rng.random() < 0.5 else [])
         blocks.append({"k": "cond", "a": "c", "ma": ma, "mb": g._variant(ma), "thr": round(rng.uniform(-0.3, 0.3), 2), "shared": True})
         c = {"model": {"blocks": blocks}, "h": round(rng.uniform(-1.0, 1.0), 3)}
+        sub = [b for b in ma["blocks"] if b["k"] == "call" and len(ref.model_paths(b["m"])) >= 2][0]
+        nested = [("c", sub["a"]) + tuple(p) for p in ref.model_paths(sub["m"])]
     paths = ref.model_paths(c["model"])
     ops = [{"op": "init", "how": rng.choice(["simulate", "generate"]), "key": rng.randint(0, 2**30),
             "rseed": rng.randint(0, 2**30), "paths": [list(p) for p in gfi.pick_subset(rng, paths)],
@@ -35,8 +38,14 @@ def gen_case(rng, tier):
             ops.append(tm.gen_fault(rng, c["model"]))
             continue
         newh = rng.random() < 0.6
+        sub_paths = gfi.pick_subset(rng, paths)
+        if nested and rng.random() < 0.5:
+            # a strict, non-empty part of the nested sub-map (plus, sometimes, other addresses)
+            k = rng.randint(1, len(nested) - 1)
+            sub_paths = rng.sample(nested, k) + ([p for p in sub_paths if tuple(p) not in nested] if rng.random() < 0.3 else [])
+            newh = newh or rng.random() < 0.7
         op = {"op": "update", "h": round(rng.uniform(-1.2, 1.2), 3) if newh else None,
-              "paths": [list(p) for p in gfi.pick_subset(rng, paths)], "rseed": rng.randint(0, 2**30),
+              "paths": [list(p) for p in sub_paths], "rseed": rng.randint(0, 2**30),
               "api": rng.choice(["gf", "gf", "trace", "trace_noargs"]), "cfg": rng.choice(["eager", "eager", "eager", "jit"]),
               "roundtrip": rng.random() < 0.6, "none_arg": rng.random() < 0.3}
         ops.append(op)
